@@ -34,3 +34,12 @@ LP/DriverSound.vos LP/DriverSound.vok LP/DriverSound.required_vos: LP/DriverSoun
 LP/Agree.vo LP/Agree.glob LP/Agree.v.beautified LP/Agree.required_vo: LP/Agree.v LP/DriverSound.vo LP/Unique.vo
 LP/Agree.vio: LP/Agree.v LP/DriverSound.vio LP/Unique.vio
 LP/Agree.vos LP/Agree.vok LP/Agree.required_vos: LP/Agree.v LP/DriverSound.vos LP/Unique.vos
+Fac/Gauss.vo Fac/Gauss.glob Fac/Gauss.v.beautified Fac/Gauss.required_vo: Fac/Gauss.v Base/QSum.vo
+Fac/Gauss.vio: Fac/Gauss.v Base/QSum.vio
+Fac/Gauss.vos Fac/Gauss.vok Fac/Gauss.required_vos: Fac/Gauss.v Base/QSum.vos
+Fac/GaussSound.vo Fac/GaussSound.glob Fac/GaussSound.v.beautified Fac/GaussSound.required_vo: Fac/GaussSound.v Fac/Gauss.vo
+Fac/GaussSound.vio: Fac/GaussSound.v Fac/Gauss.vio
+Fac/GaussSound.vos Fac/GaussSound.vok Fac/GaussSound.required_vos: Fac/GaussSound.v Fac/Gauss.vos
+Fac/Basis.vo Fac/Basis.glob Fac/Basis.v.beautified Fac/Basis.required_vo: Fac/Basis.v Fac/Gauss.vo LP/OptTest.vo
+Fac/Basis.vio: Fac/Basis.v Fac/Gauss.vio LP/OptTest.vio
+Fac/Basis.vos Fac/Basis.vok Fac/Basis.required_vos: Fac/Basis.v Fac/Gauss.vos LP/OptTest.vos
